@@ -162,6 +162,9 @@ func c14UnionExpectations(root *model.Package, env *model.Env) map[string]c14Uni
 			if t.OpenCases {
 				w.excluded = "open-cases"
 			}
+			if ref.CaseIsUnion(env, t) {
+				w.excluded = "case-is-a-union" // the documented rule does not cover a case with several JSON datatypes
+			}
 			key := ref.JsonPlan(env, t)
 			if prev, ok := out[key]; ok && prev.excluded != "" {
 				w.excluded = prev.excluded
